@@ -26,6 +26,9 @@ pub struct Case {
     pub delay_ka_ms: u8,
     #[serde(default)]
     pub ka_pick: u8,
+    /// third run, alternative: the transport accepts only this many bytes of that Keep Alive at first (0 = not used)
+    #[serde(default)]
+    pub ka_prefix: u8,
 }
 
 pub struct C07;
@@ -261,8 +264,8 @@ impl Check for C07 {
         "C07"
     }
     fn strategy(&self, _tier: Tier) -> BoxedStrategy<Case> {
-        (scenario_strategy(false), any::<u64>(), prop_oneof![1 => Just(0u8), 2 => 1u8..=3, 1 => 4u8..=50], any::<u8>(), prop_oneof![1 => Just(0u8), 2 => 4u8..=50], any::<u8>())
-            .prop_map(|(mut sc, select_seed, delay_terminal_ms, aim, delay_ka_ms, ka_pick)| {
+        (scenario_strategy(false), any::<u64>(), prop_oneof![1 => Just(0u8), 2 => 1u8..=3, 1 => 4u8..=50], any::<u8>(), prop_oneof![1 => Just(0u8), 2 => 4u8..=50], any::<u8>(), prop_oneof![3 => Just(0u8), 1 => 1u8..=9])
+            .prop_map(|(mut sc, select_seed, delay_terminal_ms, aim, delay_ka_ms, ka_pick, ka_prefix)| {
                 // a share of scenarios in which routing completes 1-3 ms after a keep-alive deadline: the window in
                 // which a pending timeout Disconnect meets a completing backend call
                 if aim % 4 == 0 && delay_terminal_ms > 0 {
@@ -288,7 +291,7 @@ impl Check for C07 {
                     sc.extras.clear();
                     sc = untie(sc);
                 }
-                Case { sc, select_seed, delay_terminal_ms, delay_ka_ms, ka_pick }
+                Case { sc, select_seed, delay_terminal_ms, delay_ka_ms, ka_pick, ka_prefix }
             })
             .boxed()
     }
@@ -326,19 +329,21 @@ impl Check for C07 {
         }
         instants.extend(case.sc.extras.iter().filter_map(|e| tl.ack_due.map(|a| a + u64::from(e.after_ack_ms))));
         let clear_of_ticks = instants.iter().all(|t| t % PERIOD < PERIOD - 100);
-        if case.delay_ka_ms > 0 && echo_safe && clear_of_ticks && !ka_positions.is_empty() {
+        // a partially accepted write shifts nothing in time and needs no such guard
+        let partial = case.ka_prefix > 0;
+        if ((case.delay_ka_ms > 0 && echo_safe && clear_of_ticks) || partial) && !ka_positions.is_empty() {
             let k = ka_positions[crate::runner::idx(u16::from(case.ka_pick) << 8, ka_positions.len())];
             let mut wscript = vec![sim::WStep::All; k];
-            wscript.push(sim::WStep::PendingFor(u16::from(case.delay_ka_ms)));
+            wscript.push(if partial { sim::WStep::Prefix(u16::from(case.ka_prefix)) } else { sim::WStep::PendingFor(u16::from(case.delay_ka_ms)) });
             let (out3, _) = timed::run(&case.sc, &TransportScript { wscript, rscript: vec![] }, &SegPlan::new(), case.select_seed);
-            info.class("third_run:keep_alive_write_pending");
+            info.class(if partial { "third_run:keep_alive_write_partial" } else { "third_run:keep_alive_write_pending" });
             let seq = |o: &sim::SimOutcome| -> Vec<String> { o.cb.iter().map(|(_, p)| crate::checks::c08::stable(p)).collect() };
             if let sim::ServerEnd::Panicked { msg } = &out3.end {
                 return (Verdict::Fail { sig: "panic".into(), msg: format!("handler panicked: {msg}") }, info);
             }
             if out3.stream_broken.is_some() || seq(&out) != seq(&out3) || out.returned_ok() != out3.returned_ok() {
                 return (
-                    Verdict::Fail { sig: "keep-alive-bookkeeping-depends-on-write-timing".into(), msg: format!("with the write of packet #{k} (a Keep Alive) pending for {} ms the client received {:?} (end {}), otherwise {:?} (end {}); stream {:?}", case.delay_ka_ms, seq(&out3), out3.end_label(), seq(&out), out.end_label(), out3.stream_broken) },
+                    Verdict::Fail { sig: "keep-alive-bookkeeping-depends-on-write-timing".into(), msg: format!("with the write of packet #{k} (a Keep Alive) {} the client received {:?} (end {}), otherwise {:?} (end {}); stream {:?}", if partial { format!("accepted in two parts ({} bytes first)", case.ka_prefix) } else { format!("pending for {} ms", case.delay_ka_ms) }, seq(&out3), out3.end_label(), seq(&out), out.end_label(), out3.stream_broken) },
                     info,
                 );
             }
